@@ -15,7 +15,7 @@ def run(ctx):
         cases.append(G.case_text("c%d" % i, st, ["CPBITS 64", G.op_setup(pb), G.op_solve()]))
         ctx.classes.add(G.signature(pb))
     txt = "".join(cases)
-    ok, diffs, a, b = spine.correspond(ctx, "c09", txt)
+    res, mobs = spine.correspond(ctx, "c09", txt, backends=spine.ALL_BACKENDS)
     ctx.coverage["evaluations"] = N
     ctx.coverage["samples"] = [cases[0]]
     return vlib.finish(ctx)
